@@ -85,11 +85,12 @@ struct Cfg {
     int token = 0;        // FAST: 0 nothing, 1 user agent + HT token, 2 user agent only
     bool nsPlain = false; // XEP-0078 preference plain instead of digest
     bool inactive = false; // client state indication: inactive before connecting
+    int ka = 0;            // keep-alive ping interval in seconds (0 = off); timers are outside the Lean model, see timerScenario()
     std::string str() const
     {
         char b[128];
         snprintf(b, sizeof b, "tls=%d s2=%d s1=%d ns=%d pl=%d tok=%d nsp=%d ina=%d", tls, sasl2, sasl, nonsasl, plainOk, token, nsPlain, inactive);
-        return b;
+        return std::string(b) + (ka ? " ka=" + std::to_string(ka) : "");
     }
 };
 
@@ -101,7 +102,7 @@ static QXmppConfiguration makeConfig(const Cfg &c, quint16 port)
     cfg.setHost("127.0.0.1");
     cfg.setPort(port);
     cfg.setAutoReconnectionEnabled(false);
-    cfg.setKeepAliveInterval(0);
+    cfg.setKeepAliveInterval(c.ka);
     cfg.setKeepAliveTimeout(0);
     cfg.setIgnoreSslErrors(true);
     cfg.setStreamSecurityMode(c.tls == 0 ? QXmppConfiguration::TLSDisabled : c.tls == 1 ? QXmppConfiguration::TLSEnabled : QXmppConfiguration::TLSRequired);
@@ -258,7 +259,7 @@ struct Conn {
     int id = 0;
     // what the script delivered on this connection (for the oracles; independent of the model)
     int delivered = 0;
-    bool firstIsHeader = false, sawVersionlessHeader = false, sawIqRequest = false, sawCsiFeature = false, csiSent = false;
+    bool firstIsHeader = false, sawVersionlessHeader = false, sawIqRequest = false, sawCsiFeature = false, csiSent = false, sawForeignIq = false, sawSmR = false;
     QByteArray scramServerFirst;   // last SCRAM server-first message sent on this connection
 };
 
@@ -619,10 +620,19 @@ struct Runner {
         const QString op = t.value(0);
         auto &c = w;
         if (auto k = c.conn(); k && !k->closed && op != "connect" && op != "drop" && op != "sendiq") {
-            if (k->delivered == 0) k->firstIsHeader = (op == "hdr");
+            if (k->delivered == 0) k->firstIsHeader = (op == "hdr") || (op == "seg" && t.value(1) == "hdr");
             k->delivered++;
             if (op == "hdr" && t.value(1) == "0") k->sawVersionlessHeader = true;
-            if (op == "iqget" || op == "iqset" || (op == "xel" && t.value(2).startsWith("iq"))) k->sawIqRequest = true;
+            if (op == "iqget" || op == "iqset") k->sawIqRequest = true;
+            if (op == "xel" && t.value(2).startsWith("iqget")) k->sawForeignIq = true;
+            if (op == "smr") k->sawSmR = true;
+            if (op == "seg") {
+                const QString rest = QString::fromStdString(opStr);
+                if (rest.contains(" iqget ") || rest.contains(" iqset")) k->sawIqRequest = true;
+                if (rest.contains("xel") && rest.contains("iqget")) k->sawForeignIq = true;
+                if (rest.contains(" hdr 0")) k->sawVersionlessHeader = true;
+                if (rest.contains(" c1")) k->sawCsiFeature = true;
+            }
             if (op == "feat" && t.contains("c1")) k->sawCsiFeature = true;
         }
         if (op == "connect") {
@@ -769,6 +779,10 @@ struct Runner {
                 k->sock->abort();
                 k->closed = true;
             }
+        } else if (op == "tick") {
+            // 1.4 s of wall-clock time pass (only used with ka=1; not an op of the Lean model)
+            QElapsedTimer tt; tt.start();
+            while (tt.elapsed() < 1400) QCoreApplication::processEvents(QEventLoop::AllEvents, 50);
         } else if (op == "ws") {
             c.srvSend(" ");   // whitespace keep-alive
         } else if (op == "smr") {
@@ -827,7 +841,7 @@ static int runManual(const std::string &cfgStr, const std::string &script)
     for (const QString &kv : QString::fromStdString(cfgStr).split(' ', Qt::SkipEmptyParts)) {
         QString k = kv.section('=', 0, 0); int v = kv.section('=', 1).toInt();
         if (k == "tls") cfg.tls = v; else if (k == "s2") cfg.sasl2 = v; else if (k == "s1") cfg.sasl = v; else if (k == "ns") cfg.nonsasl = v;
-        else if (k == "pl") cfg.plainOk = v; else if (k == "tok") cfg.token = v; else if (k == "nsp") cfg.nsPlain = v; else if (k == "ina") cfg.inactive = v;
+        else if (k == "pl") cfg.plainOk = v; else if (k == "tok") cfg.token = v; else if (k == "nsp") cfg.nsPlain = v; else if (k == "ina") cfg.inactive = v; else if (k == "ka") cfg.ka = v;
     }
     r.w.newClient(cfg);
     printf("reset %s\n", cfg.str().c_str());
@@ -999,6 +1013,10 @@ static void oracleC04(Session &s)
                     std::string cause = "unexplained";
                     if (k.rfind("NonSasl", 0) == 0 && c->sawVersionlessHeader) cause = "after-versionless-header";
                     if (k.rfind("IqReply", 0) == 0 && c->sawIqRequest) cause = "answer-to-iq-request";
+                    if (k.rfind("IqReply", 0) == 0 && c->sawForeignIq) cause = "answer-to-foreign-namespace-iq";
+                    if (k == "SmAck" && c->sawSmR) cause = "answer-to-sm-request";
+                    if (s.cfg.ka && (k.rfind("IqRequest", 0) == 0 || k == "SmReq")) cause = "keepalive-timer-after-redirect";
+                    if (k == "SmReq" && c->sawForeignIq) cause = "with-answer-to-foreign-namespace-iq";
                     std::string key = "C04:cleartext:" + k + ":" + cause;
                     if (!reported.count(key)) { reported.insert(key); fail(key, s.replay()); }
                 }
@@ -1025,6 +1043,7 @@ struct Policy {
     int sm = 0;             // 0 none, 1 offered, <enabled/> without resume, 2 offered, resumable
     bool resumeOk = true;   // answer <resume/> with <resumed/> (else <failed/>)
     bool csi = false;
+    bool pipeline = false;  // the stream header and the stream features arrive in ONE segment (one read on the client side)
     int redirectAt = -1;    // k >= 0: send see-other-host instead of the (k+1)-th server element; -2: once the session is established
 };
 
@@ -1036,7 +1055,15 @@ struct Conforming {
     // returns "" when the server has nothing more to say (negotiation finished from the server's point of view)
     std::string next(const std::string &lastKind, bool newStream)
     {
-        if (newStream) { needFeatures = !(p.auth == 'l' && !authed); return p.auth == 'l' ? "hdr 0 1" : "hdr 1 1"; }
+        if (newStream) {
+            needFeatures = !(p.auth == 'l' && !authed);
+            std::string h = p.auth == 'l' ? "hdr 0 1" : "hdr 1 1";
+            if (p.pipeline && needFeatures) {
+                std::string f = next(lastKind, false);
+                if (!f.empty()) return "seg " + h + " + " + f;
+            }
+            return h;
+        }
         if (needFeatures) {
             needFeatures = false;
             if (p.auth == 'l' && !authed) return "";   // the client asks for the fields by itself
@@ -1096,6 +1123,8 @@ static std::vector<Policy> policies()
     add("tls-redirect", true, 'p', 0, true, false, 4);
     add("redirect-in-session", false, 'p', 0, true, false, -2);
     add("redirect-in-session-smr", false, 'p', 2, true, false, -2);
+    add("sasl-bind-smr-pipelined", false, 'p', 2, true, true, -1); v.back().pipeline = true;
+    add("tls-sasl2-bind2-pipelined", true, '2', 2, true, true, -1); v.back().pipeline = true;
     return v;
 }
 
@@ -1114,14 +1143,14 @@ static std::string lastRequest(World &w, size_t from)
 // ---- C10: one connection attempt driven by a conforming server, cut after `cut` server elements (cut < 0: never)
 struct AttemptResult { bool reachedDone = false, connectedSeen = false, cutDone = false, resumedNow = false; int said = 0; };
 
-static AttemptResult runAttempt(Session &s, const Policy &p, int cut, bool sendIqWhenUp, bool &resumable)
+static AttemptResult runAttempt(Session &s, const Policy &p, int cut, bool sendIqWhenUp, bool &resumable, bool alreadyOpen = false)
 {
     World &w = s.r.w;
     AttemptResult res;
     Conforming srv; srv.p = p;
     int connectedBefore = w.connectedSignals;
     size_t sentFrom = w.sent.size();
-    s.op("connect");
+    if (!alreadyOpen) s.op("connect");   // alreadyOpen: the client has opened the connection by itself (see-other-host)
     bool newStream = true;
     size_t bind2Idx = w.sessionBind2Used.size();
     auto negotiationOver = [&]() {
@@ -1193,13 +1222,13 @@ static AttemptResult runAttempt(Session &s, const Policy &p, int cut, bool sendI
     return res;
 }
 
-static void cutAndCheck(Session &s, bool resumable)
+static void cutAndCheck(Session &s, bool resumable, const char *how = "drop")
 {
     World &w = s.r.w;
     int outstandingBefore = w.iqStarted - w.iqFinished;
     int disconnectedBefore = w.disconnectedSignals;
     bool wasUp = w.client->strm()->socket()->state() == QAbstractSocket::ConnectedState;
-    s.op("drop");
+    s.op(how);
     bool ok = true;
     if (w.client->state() != QXmppClient::DisconnectedState || w.client->isConnected() || w.client->isAuthenticated()) { fail("C10:not-disconnected-after-cut", s.replay()); ok = false; }
     if (wasUp && w.disconnectedSignals != disconnectedBefore + 1) { fail("C10:disconnected-signal-count-after-cut", s.replay()); ok = false; }
@@ -1216,6 +1245,7 @@ static void exploreC10(Runner &r, Rng &rng, bool thorough)
     { Cfg c; c.tls = 1; c.plainOk = true; cfgs.push_back(c); }
     { Cfg c; c.tls = 1; c.plainOk = true; c.inactive = true; cfgs.push_back(c); }
     { Cfg c; c.tls = 0; c.plainOk = true; c.sasl2 = false; cfgs.push_back(c); }
+    { Cfg c; c.tls = 2; c.plainOk = true; cfgs.push_back(c); }   // TLS required: only the policies with STARTTLS conform
     // (0) corpus: the witnesses of the former findings first (legacy login, redirect over TLS / in session, bind2Bound leak)
     auto byName = [&](const char *n) { for (auto &p : pols) if (p.name == n) return p; fprintf(stderr, "harness: no policy %s\n", n); exit(3); };
     struct Pair { const char *p1; int cut; const char *p2; int cfg; };
@@ -1230,6 +1260,80 @@ static void exploreC10(Runner &r, Rng &rng, bool thorough)
             runAttempt(s, byName(pr.p2), -1, false, resumable);
             outSample(s.replay());
             stat("c10:runs");
+        });
+    }
+    // (0a) a harsher environment than clean cuts at element boundaries: refusals by the server, stream error + close in one segment,
+    // a cut in the middle of an element (partial data in the read buffer), TCP reset instead of an orderly close, white space keep-alive.
+    // After every incident the client must be disconnected (or, for a redirect, on its way) and the next conforming attempt must succeed.
+    struct Incident { const char *name; const char *base; int baseCut; std::vector<std::string> ops; int cfg; char expect; const char *next; };
+    // expect: 'd' the client must be disconnected by itself; 'c' cut with drop afterwards; 'r' cut with rst; 'u' must stay up (then cut); 'o' the client
+    // opens the next connection by itself (see-other-host), continue there
+    const std::vector<Incident> incidents = {
+        { "ws-in-session", "sasl-bind", -1, { "ws" }, 0, 'u', "sasl-bind" },
+        { "ws-in-session-smr", "sasl-bind-smr", -1, { "ws" }, 0, 'u', "sasl-bind-smr" },
+        { "auth-failure", nullptr, 0, { "connect", "hdr 1 1", "feat mp", "failure" }, 0, 'd', "sasl-bind" },
+        { "auth-failure-tls", nullptr, 0, { "connect", "hdr 1 1", "feat t1", "proceed 1", "hdr 1 1", "feat mp", "failure" }, 3, 'd', "tls-sasl-bind" },
+        { "bind-error", nullptr, 0, { "connect", "hdr 1 1", "feat mp", "success 1", "hdr 1 1", "feat b1", "bindres err" }, 0, 'd', "sasl-bind" },
+        { "starttls-failure", nullptr, 0, { "connect", "hdr 1 1", "feat t1", "tlsfailure" }, 3, 'd', "tls-sasl-bind" },
+        { "handshake-fails", nullptr, 0, { "connect", "hdr 1 1", "feat t1", "proceed 0" }, 3, 'd', "tls-sasl-bind" },
+        { "handshake-fails-tls-optional", nullptr, 0, { "connect", "hdr 1 1", "feat t1", "proceed 0" }, 0, 'd', "sasl-bind" },
+        { "stream-error-close-in-negotiation", nullptr, 0, { "connect", "hdr 1 1", "errclose" }, 0, 'd', "sasl-bind" },
+        { "stream-error-close-in-session", "sasl-bind", -1, { "errclose" }, 0, 'd', "sasl-bind" },
+        { "stream-error-close-in-session-smr", "sasl-bind-smr", -1, { "errclose" }, 0, 'd', "sasl-bind-smr" },
+        { "stream-error-then-cut", "sasl-bind-smr", -1, { "streamerror" }, 0, 'c', "sasl-bind-smr" },
+        { "redirect-close-one-segment", "sasl-bind", -1, { "redirectclose" }, 0, 'o', "sasl-bind" },
+        { "redirect-close-one-segment-smr", "sasl-bind-smr", -1, { "redirectclose" }, 0, 'o', "sasl-bind-smr" },
+        { "redirect-close-one-segment-tls", "tls-sasl-bind", -1, { "redirectclose" }, 3, 'o', "tls-sasl-bind" },
+        { "redirect-close-in-negotiation", nullptr, 0, { "connect", "hdr 1 1", "redirectclose" }, 0, 'o', "sasl-bind" },
+        { "cut-mid-element-in-session", "sasl-bind-smr", -1, { "partial" }, 0, 'c', "sasl-bind-smr" },
+        { "cut-mid-element-in-negotiation", "sasl-bind", 2, { "partial" }, 0, 'c', "sasl-bind" },
+        { "cut-mid-element-tls", "tls-sasl-bind", 5, { "partial" }, 3, 'c', "tls-sasl-bind" },
+        { "rst-mid-element", "sasl2-bind2-smr", -1, { "partial" }, 0, 'r', "sasl2-bind2-smr" },
+        { "rst-in-session", "sasl-bind-smr", -1, {}, 0, 'r', "sasl-bind-smr" },
+        { "rst-in-session-tls", "tls-sasl-bind", -1, {}, 3, 'r', "tls-sasl-bind" },
+        { "rst-in-negotiation", "sasl-bind", 3, {}, 0, 'r', "sasl-bind" },
+        { "rst-in-negotiation-tls", "tls-sasl2-bind2", 4, {}, 3, 'r', "tls-sasl2-bind2" },
+    };
+    for (const Incident &in : incidents) {
+        experiment(r.w.settleTimeouts, nullptr, [&]() {
+            Session s(r, cfgs[size_t(in.cfg)]);
+            World &w = r.w;
+            bool resumable = false;
+            if (in.base) runAttempt(s, byName(in.base), in.baseCut, true, resumable);
+            int disconnectedBefore = w.disconnectedSignals;
+            bool wasUp = w.client->strm()->socket()->state() == QAbstractSocket::ConnectedState;
+            for (auto &o : in.ops) { s.op(o); wasUp = wasUp || o == "connect"; }
+            bool alreadyOpen = false;
+            switch (in.expect) {
+            case 'u':
+                // RFC 6120 4.6.1: white space between elements is a keep-alive; it must not end the session
+                if (!(w.client->isConnected() && w.client->state() == QXmppClient::ConnectedState)) fail("C10:whitespace-keepalive-ends-connection", s.replay());
+                else oraclePass()++;
+                cutAndCheck(s, resumable);
+                break;
+            case 'd': {
+                bool ok = true;
+                if (w.client->state() != QXmppClient::DisconnectedState || w.client->isConnected() || w.client->isAuthenticated()) { fail(std::string("C10:not-disconnected-after-refusal:") + in.name, s.replay()); ok = false; }
+                if (wasUp && w.disconnectedSignals != disconnectedBefore + 1) { fail(std::string("C10:disconnected-signal-count-after-refusal:") + in.name, s.replay()); ok = false; }
+                // the client ended the stream itself (closeSession): nothing is resumable, so no request may be left open
+                if (w.iqStarted - w.iqFinished != 0) { fail(std::string("C10:request-left-open-after-refusal:") + in.name, s.replay()); ok = false; }
+                resumable = false;
+                if (ok) oraclePass()++;
+                break;
+            }
+            case 'c': cutAndCheck(s, resumable); break;
+            case 'r': cutAndCheck(s, resumable, "rst"); break;
+            case 'o':
+                if (w.client->isConnected() || w.client->state() == QXmppClient::ConnectedState) fail("C10:session-reported-during-negotiation:after-redirect", s.replay());
+                else oraclePass()++;
+                // the trailing </stream:stream> ran disconnectFromHost(): the old stream is not resumable any more
+                resumable = false;
+                alreadyOpen = true;
+                break;
+            }
+            runAttempt(s, byName(in.next), -1, false, resumable, alreadyOpen);
+            stat("c10:runs");
+            stat("c10:incident-runs");
         });
     }
     // (0b) three consecutive connections with stream management: new resumable session + outstanding request, cut; <resume/> accepted,
@@ -1290,6 +1394,7 @@ static void exploreC10(Runner &r, Rng &rng, bool thorough)
     for (size_t ci = 0; ci < cfgs.size(); ci++)
         for (auto &p : pols) {
             if (ci == 2 && (p.tls || p.auth == '2' || p.auth == 'b')) continue;
+            if (ci == 3 && !p.tls) continue;
             for (int cut = 0; cut < 14; cut++) {
                 bool lastCut = false;
                 experiment(r.w.settleTimeouts, nullptr, [&]() {
@@ -1338,7 +1443,7 @@ static const std::vector<std::string> &alphabetSmall()
 {
     static const std::vector<std::string> a = {
         "hdr 1 1", "hdr 0 1", "feat t1 mp a1 b1", "feat t0 mp a1", "proceed 1", "proceed 0", "fields 1 1", "iqget version",
-        "iqget unknown", "success 1", "feat t0 zp200", "bindres ok", "redirect", "message",
+        "iqget unknown", "success 1", "feat t0 zp200", "bindres ok", "redirect", "message", "xel f iqget-version", "ws",
     };
     return a;
 }
@@ -1354,6 +1459,10 @@ static const std::vector<std::string> &alphabetFull()
         "bindres ok", "bindres nojid", "bindres err", "bindres wrongid", "smenabled 1", "smenabled 0", "smfailed", "smresumed",
         "iqget version", "iqget disco", "iqget unknown", "iqset", "iqresult pending", "iqresult stray", "message", "presence sub", "presence avail",
         "streamerror", "redirect", "close", "drop", "sendiq", "connect",
+        "xel f iqget-version", "xel e iqget-version", "xel s iqget-version", "xel f iqget-unknown", "xel s iqset", "xel e iqresult-pending",
+        "xel f message", "xel s presence", "smr", "sma", "ws", "partial", "errclose", "redirectclose", "rst",
+        "seg hdr 1 1 + feat t1 mp a1 b1", "seg hdr 1 1 + feat t0 mp a1", "seg hdr 1 1 + iqget version", "seg hdr 1 1 + xel f iqget-version",
+        "seg hdr 1 1 + feat t0 b1 s1 c1",
     };
     return a;
 }
@@ -1408,6 +1517,28 @@ static void exploreC04(Runner &r, Rng &rng, bool thorough)
     runC04Script(r, cfgs[0], { "hdr 0 1", "fields 1 1" });
     runC04Script(r, cfgs[0], { "hdr 1 1", "iqget version" });
     runC04Script(r, cfgs[0], { "hdr 1 1", "feat t0 mp a1" });
+    // timers (outside the Lean model: the time that passes is not an op, only the oracle judges): keep-alive pings switched on, time
+    // passes before TLS on a first connection and on the connection opened after a see-other-host in an established session
+    for (int variant = 0; variant < 3; variant++)
+        experiment(r.w.settleTimeouts, nullptr, [&]() {
+            Cfg c = cfgs[1]; c.ka = 1;
+            Session s(r, c);
+            std::vector<std::string> pre = { "connect", "hdr 1 1" };
+            if (variant >= 1) pre = { "connect", "hdr 1 1", "feat t1", "proceed 1", "hdr 1 1", "feat mp", "success 1", "hdr 1 1", variant == 1 ? "feat b1" : "feat b1 s1", "bindres ok" };
+            if (variant == 2) pre.push_back("smenabled 1");
+            if (variant >= 1) { pre.push_back("redirect"); pre.push_back("hdr 1 1"); }
+            for (auto &o : pre) s.op(o);
+            s.ops.push_back("tick");
+            std::string obs = r.apply("tick");
+            if (obs.rfind("-|", 0) != 0) fail("C04:timer-writes-before-tls", s.replay());
+            else oraclePass()++;
+            oracleC04(s);
+            stat("c04:timer-scenarios");
+        });
+    runC04Script(r, cfgs[0], { "hdr 1 1", "xel f iqget-version" });      // stanza-shaped element outside jabber:client slips past the guard
+    runC04Script(r, cfgs[0], { "hdr 1 1", "xel e iqget-version" });
+    runC04Script(r, cfgs[1], { "hdr 1 1", "feat t1", "proceed 1", "hdr 1 1", "feat t0 zp200", "success2 2 0 0 1", "redirect", "hdr 1 1", "smr" });
+    runC04Script(r, cfgs[1], { "hdr 1 1", "feat t1", "proceed 1", "hdr 1 1", "feat t0 zp200", "success2 2 0 0 1", "redirect", "hdr 1 1", "xel s iqget-version" });
     runC04Script(r, cfgs[1], { "hdr 1 1", "feat t1 mp a1 b1", "proceed 1", "hdr 1 1", "feat t0 mp a1", "success 1", "hdr 1 1", "feat t0 b1", "bindres ok" });
     // reconnect histories: the connection is lost at every point of a STARTTLS + authentication + bind flow, the application
     // connects again, and the new (plain-text) peer sends its header and then ONE element that belongs to the old exchange -
